@@ -66,6 +66,17 @@ Proof. unfold agree. agreeing w_ex_inherit_jdk_table w_ex_inherit_repo w_ex_inhe
 Lemma w_ex_import_agree : agree w_ex_import_jdk_table w_ex_import_repo w_ex_import_root.
 Proof. unfold agree. agreeing w_ex_import_jdk_table w_ex_import_repo w_ex_import_root. Qed.
 
+(* a property defined with an empty value overrides the parent's and makes the classifier vanish *)
+Lemma w_ex_empty_agree : agree w_ex_empty_jdk_table w_ex_empty_repo w_ex_empty_root.
+Proof. unfold agree. agreeing w_ex_empty_jdk_table w_ex_empty_repo w_ex_empty_root. Qed.
+
+(* R10 on both sides: a name defined with the empty value is defined (the flag stays true) *)
+Lemma empty_value_is_defined :
+  interpolate_string [([99;108], [])] [50;36;123;99;108;125;45] = Ok ([50;45], true) /\
+  S.resolve [([99;108], [])] [50;36;123;99;108;125;45] = ([50;45], true) /\
+  interpolate_string [] [50;36;123;99;108;125;45] = Ok ([50;36;123;99;108;125;45], false).
+Proof. vm_compute. repeat split; reflexivity. Qed.
+
 (* the order of the steps read from the sources is the order the model implements *)
 Lemma documented_order :
   order_example_mergeParents = model_order_mergeParents /\
